@@ -46,7 +46,7 @@ func genCfg(t *rapid.T) crashlib.Cfg {
 	return crashlib.Cfg{
 		SkipListMaxLevel: rapid.SampledFrom([]int{0, 1, 4, 9}).Draw(t, "slMax"),
 		SkipListP:        rapid.SampledFrom([]float64{0, 0.25, 0.5}).Draw(t, "slP"),
-		MemThreshold:     rapid.SampledFrom([]int{60, 100, 150, 250, 400}).Draw(t, "mem"),
+		MemThreshold:     rapid.SampledFrom([]int{60, 100, 150, 250, 400, 400, 2000, 20000}).Draw(t, "mem"),
 		ImmBuf:           rapid.SampledFrom([]int{0, 1, 1, 2, 3}).Draw(t, "immBuf"),
 		Block:            rapid.SampledFrom([]int{1, 60, 60, 4096}).Draw(t, "block"),
 		L0Target:         rapid.SampledFrom([]int{1, 1, 2}).Draw(t, "l0"),
@@ -65,12 +65,20 @@ func genTxns(t *rapid.T, nk, n, firstNo int, exists map[int]bool, multi bool, la
 			nops = rapid.IntRange(2, 5).Draw(t, label+"nops2")
 		}
 		tx := crashlib.WTxn{No: firstNo + i}
+		// now and then a large transaction: many keys and/or values of several KiB, so that its
+		// wal batch is far larger than any internal buffer or block size
+		big := rapid.IntRange(0, 7).Draw(t, label+"big") == 0
+		vlens := []int{0, 0, 5, 20, 60, 120}
+		if big {
+			nops = rapid.IntRange(6, 30).Draw(t, label+"bignops")
+			vlens = []int{60, 300, 700, 1500, 5000}
+		}
 		for j := 0; j < nops; j++ {
 			k := rapid.IntRange(0, nk-1).Draw(t, label+"k")
 			del := exists[k] && rapid.IntRange(0, 4).Draw(t, label+"del") == 0
 			o := crashlib.WOp{K: k, Del: del}
 			if !del {
-				o.VLen = rapid.SampledFrom([]int{0, 0, 5, 20, 60, 120}).Draw(t, label+"vlen")
+				o.VLen = rapid.SampledFrom(vlens).Draw(t, label+"vlen")
 			}
 			tx.Ops = append(tx.Ops, o)
 		}
@@ -85,6 +93,9 @@ func genTxns(t *rapid.T, nk, n, firstNo int, exists map[int]bool, multi bool, la
 func genCase(t *rapid.T, multi bool) Case {
 	c := Case{W: crashlib.Workload{Cfg: genCfg(t), CloseAtEnd: rapid.Bool().Draw(t, "closeAtEnd")}}
 	nk := rapid.IntRange(6, 12).Draw(t, "nkeys")
+	if rapid.IntRange(0, 2).Draw(t, "manyKeys") == 0 {
+		nk = rapid.IntRange(12, 36).Draw(t, "nkeysMany")
+	}
 	seen := map[string]bool{}
 	for len(c.W.Keys) < nk {
 		k := rapid.SampledFrom(vlib.Pool).Draw(t, "key")
